@@ -75,6 +75,10 @@ CHECKS = {
                 text="Backend.tla models the global backend state and the weak-reference callback registry; set_backend is three separate steps (swap, fire, setup). TLC explores all interleavings of object creation, deletion and switches over 4 backends x 2 precisions x 2 optimisers x default flag with <=3 objects and checks StaleFree, DeadNeverCalled, EventIffChanged, AllLiveCalled, NoDeadAfterFire and the action property DefaultUntouchedUnlessAsked. Binding A: TLC -simulate behaviours over 8 object kinds are stepped through one long-lived pyhf process; after every step the global state and the raw registry length are compared with the specification's post-state and every live model/interpolator/viewer is compared bit-exactly with a fresh one (tensor type too), fits at the end. Binding B: hooks H1/H2 record swap/trigger/call/flush/subscribe events of the same executions and TLC validates every trace against TraceBackend.tla (inferring the unlogged deaths from the logged liveness bits).",
                 note="trusted: gc.collect() kills dropped objects; object kinds of the replay are representative; jit caches of opt_jax are exercised only through the fits at the end of behaviours",
                 technique="TLC exhaustive interleavings + replay of simulated behaviours + TLC trace validation of hook events"),
+    "C19": dict(engine="cli", design="4/C19", level="exploration",
+                text="Cli.tla models each sub-command as a function from an option record to the library call it must make (definition: every option named takes effect) and, separately, the call each click function actually forwards (transcription); MC_Cli.tla chooses command, options one at a time, input/output routing, and runs; TLC checks DefSensitive (every non-default option changes the definition's call), ExitIffLibrary, OutputPlanAgrees and ImplForwardsAll over ~630 k states. A seeded share of the Run states is executed with click's CliRunner in-process (plus a subprocess sample), compared with the direct library call for the same inputs: exit status, parsed JSON/text within 1e-6, file output byte-identical to stdout, stdin vs file input, and the backend/optimiser settings observed at the fit.  The TLA+ part is an enumerator and oracle (configuration space), so the level claimed is exploration.",
+                note="toy-based cls runs with the ToyCalculator default lowered to 12 toys in both the CLI run and the direct call; subprocess sample excludes toys; built by a sub-agent under my review",
+                technique="TLA+ option-to-call specification (TLC) as enumerator and oracle + CliRunner replay"),
     "C20": dict(engine="hfvalidity", design="4/C20", level="fault_enumeration",
                 text="MC_HFValidity.tla injects every single structural fault of the classes the property lists (duplicate channel/sample/modifier, sample and modifier-data length, bin-wise modifier shared across bin counts, conflicting constraint class for one name, override of wrong length, undefined POI, lumi without settings; thorough: pairs) at every applicable position of every small well-formed specification; TLC proves each faulty specification violates the property's well-formedness predicate WF and each unfaulted one satisfies it (so refusal is never demanded of a consistent spec); the faulty specifications are replayed through pyhf.Model and Workspace.model and must be refused with an exception class defined in pyhf.exceptions. Fault enumeration is the natural level: the property quantifies over fault classes x positions.",
                 note="WF in MC_HFValidity.tla is my formalisation of 'structurally inconsistent'; a staterror name reused by the same sample across channels is deliberately not injected (coherent per-bin model in pyhf, see DESIGN.md); bounded by <=2 placements, 2 channels x 2 samples",
@@ -138,6 +142,7 @@ def build():
              "serves_properties": ["C18"], "kind_free_text": "XML/ROOT conversion and file-cache history specification replayed on the file system"},
             {"name": "backend", "path": "spec/Backend.tla spec/MC_Backend.tla spec/TraceBackend.tla harness/checks/c11.py harness/backend_replay.py harness/tracecheck.py",
              "serves_properties": ["C11"], "kind_free_text": "backend/event-registry state machine, simulated behaviours replayed, hook traces validated by TLC"},
+            {"name": "cli", "path": "spec/Cli.tla spec/MC_Cli.tla harness/checks/c19.py harness/cli_replay.py", "serves_properties": ["C19"], "kind_free_text": "option record -> library call specification, CliRunner replay"},
             {"name": "hfvalidity", "path": "spec/MC_HFValidity.tla harness/checks/c20.py harness/validity.py",
              "serves_properties": ["C20"], "kind_free_text": "TLA+ fault injectors over the HFModel specification space, replayed into pyhf.Model / Workspace.model"},
         ],
